@@ -2,7 +2,9 @@
 (***************************************************************************)
 (* Serialised models (pkg/pbutil, import of compiled models in pkg/parse): *)
 (* an artefact store.  Encode(fmt, compact) stores the bytes of the        *)
-(* current model; Decode of those bytes must give back the model encoded   *)
+(* current model in the artefact's file, whatever that file held before    *)
+(* (Prior: an earlier, other model written to the same file); Decode of    *)
+(* the file must give back the model encoded last                          *)
 (* (compact JSON: the model without locations); JSON artefacts are         *)
 (* well-formed; a specification that only imports an artefact compiles to  *)
 (* the same applications as the original sources.                          *)
@@ -14,7 +16,7 @@ EXTENDS Integers, Sequences, FiniteSets, TLC
 Formats == {"pb", "json", "textpb"}
 
 VARIABLES model,   \* [full, noloc, apps] digests of the model being encoded
-          store,   \* set of artefacts [fmt, compact] that have been written
+          store,   \* set of artefact files [fmt, compact, of]: `of` is the digest of the model written to it last
           bad
 vars == <<model, store, bad>>
 
@@ -22,14 +24,20 @@ Init == model = [full |-> "", noloc |-> "", apps |-> ""] /\ store = {} /\ bad = 
 
 Compile(m) == model' = m /\ store' = {} /\ bad' = {}
 
+Others(fmt, compact) == {a \in store : ~(a.fmt = fmt /\ a.compact = compact)}
+\* the file already holds the artefact of an earlier model
+Prior(fmt, compact, ok, d) ==
+  /\ store' = Others(fmt, compact) \cup {[fmt |-> fmt, compact |-> compact, of |-> d]}
+  /\ bad' = bad \cup (IF ok THEN {} ELSE {"EncodeFails:" \o fmt})
+  /\ UNCHANGED model
 Encode(fmt, compact, ok) ==
-  /\ store' = store \cup {[fmt |-> fmt, compact |-> compact]}
+  /\ store' = Others(fmt, compact) \cup {[fmt |-> fmt, compact |-> compact, of |-> model.full]}
   /\ bad' = bad \cup (IF ok THEN {} ELSE {"EncodeFails:" \o fmt})
   /\ UNCHANGED model
 
 \* decoding an artefact gives the model that was encoded
 Decode(fmt, compact, ok, full, noloc) ==
-  /\ bad' = bad \cup (IF [fmt |-> fmt, compact |-> compact] \in store THEN {} ELSE {"DecodeOfUnknownArtefact"})
+  /\ bad' = bad \cup (IF [fmt |-> fmt, compact |-> compact, of |-> model.full] \in store THEN {} ELSE {"DecodeOfUnknownArtefact"})
                 \cup (IF ~ok THEN {"DecodeFails:" \o fmt}
                       ELSE IF compact /\ fmt = "json"
                         THEN (IF noloc = model.noloc THEN {} ELSE {"RoundTripDiffers:" \o fmt \o ":compact"})
@@ -54,7 +62,8 @@ Foreign(okjson, okyaml, appsjson, appsyaml) ==
 CONSTANT Digests
 NextFaithful == \/ \E d \in Digests : Compile([full |-> d, noloc |-> d, apps |-> d])
                 \/ \E f \in Formats, c \in BOOLEAN : Encode(f, c, TRUE)
-                \/ \E a \in store : Decode(a.fmt, a.compact, TRUE, model.full, model.noloc)
+                \/ \E f \in Formats, c \in BOOLEAN, d \in Digests : Prior(f, c, TRUE, d)
+                \/ \E a \in store : a.of = model.full /\ Decode(a.fmt, a.compact, TRUE, model.full, model.noloc)
                 \/ \E f \in Formats : Reimport(f, TRUE, model.apps)
 SpecFaithful == Init /\ [][NextFaithful]_vars
 NeverFlagged == bad = {}
